@@ -341,11 +341,12 @@ theorem pre_step {typ : DType} {K : List (Kind × String)} {pc pc' : Pc} {i : Na
     Pre K pc'.transceivers ∧ PrefsSub pc'.transceivers pc.transceivers ∧
     (∀ x ∈ pc.transceivers, x.mid ≠ none → x.mid ≠ some m.mid → x ∈ pc'.transceivers) ∧
     (m.kind.isMedia = true → ∃ t' ∈ pc'.transceivers, Negotiated typ m t' ∧ t'.mline = some i) ∧
-    ((∀ t ∈ pc.transceivers, t.kind.isMedia = true) → ∀ t ∈ pc'.transceivers, t.kind.isMedia = true) := by
+    ((∀ t ∈ pc.transceivers, t.kind.isMedia = true) → ∀ t ∈ pc'.transceivers, t.kind.isMedia = true) ∧
+    (∀ t ∈ pc.transceivers, ∀ x, t.mid = some x → ∃ t' ∈ pc'.transceivers, t'.mid = some x ∧ t'.transport = t.transport) := by
   cases hk : m.kind.isMedia
   · have := applyRemoteSec_app h hk
     rw [this]
-    exact ⟨hP, PrefsSub.refl _, fun x hx _ _ => hx, fun hf => absurd hf (by decide), fun hm => hm⟩
+    exact ⟨hP, PrefsSub.refl _, fun x hx _ _ => hx, fun hf => absurd hf (by decide), fun hm => hm, fun t ht x hx => ⟨t, ht, hx, rfl⟩⟩
   · obtain ⟨ts0, t, t', hts0, hfind, hneg, hupd⟩ := applyRemoteSec_media' h hk
     have hmatch : matchesSec m t = true := by simpa using List.find?_some hfind
     have htmem : t ∈ ts0 := List.mem_of_find?_eq_some hfind
@@ -413,7 +414,7 @@ theorem pre_step {typ : DType} {K : List (Kind × String)} {pc pc' : Pc} {i : Na
         (∀ y ∈ ts0, R t y → R t' y) → (∀ y ∈ ts0, matchesSec m y = false → R y t → R y t') →
         pc'.transceivers.Pairwise R :=
       fun R hR h1 h2 => updFirst_pairwise_first (f := fun _ => t') hupd hfind hR h1 h2
-    refine ⟨⟨?_, ?_, ?_⟩, ?_, ?_, fun _ => ⟨t', ht'mem, hN, ?_⟩, ?_⟩
+    refine ⟨⟨?_, ?_, ?_⟩, ?_, ?_, fun _ => ⟨t', ht'mem, hN, ?_⟩, ?_, ?_⟩
     · -- UniqueMid
       refine hpair MidDiff hu0 ?_ ?_
       · intro y hy hR hne
@@ -485,6 +486,56 @@ theorem pre_step {typ : DType} {K : List (Kind × String)} {pc pc' : Pc} {i : Na
       · rcases hts0mem y hy0 with hold | ⟨_, _, h3⟩
         · exact hall y hold
         · rw [h3]; exact hk
+    · -- the owner of a mid stays on its transport
+      intro u hu x hux
+      by_cases hxm : x = m.mid
+      · subst hxm
+        have hum := owner_matches u (holdsub u hu) hux
+        have htn := first_match_has_mid ho0 hfind (holdsub u hu) hum (by rw [hux]; simp)
+        have htm : t.mid = some m.mid := by
+          rcases hcases with h1 | ⟨h1, _⟩
+          · exact h1
+          · exact absurd h1 htn
+        have : t = u := (show UniqueMid ts0 from hu0).eq t htmem u (holdsub u hu) (by rw [htm, hux]) (by rw [htm]; simp)
+        subst this
+        exact ⟨t', ht'mem, hN.mid, htr⟩
+      · exact ⟨u, updFirst_keeps hupd u (holdsub u hu) (by
+            cases hum : u.mid with
+            | none => rw [hum] at hux; cases hux
+            | some v =>
+              rw [hum] at hux; cases hux
+              simp [matchesSec, hum, hxm]), hux, rfl⟩
+
+/-- the SCTP transport object keeps its DTLS transport through a section -/
+theorem applyRemoteSec_sctp_transport {typ : DType} {pc pc' : Pc} {i : Nat} {m : MSec} (h : applyRemoteSec typ pc i m = .ok pc') :
+    ∀ s, pc.sctp = some s → ∃ s', pc'.sctp = some s' ∧ s'.transport = s.transport := by
+  intro s hs
+  unfold applyRemoteSec at h
+  split at h
+  · have e4 := (ensureTransceiver_spec (pc.seeMid m.mid) m).2.2.2
+    unfold applyRemoteMedia at h
+    split at h
+    · cases h
+    · split at h
+      · split at h
+        · cases h
+        · cases h
+          exact ⟨s, by rw [(modTransport_frame _ _ _).2.2.1]; show ((pc.seeMid m.mid).ensureTransceiver m).sctp = some s; rw [e4]; exact hs, rfl⟩
+      · cases h
+      · cases h
+      · cases h
+  · obtain ⟨s1, hs1, hcase⟩ := ensureSctp_sctp (pc.seeMid m.mid)
+    have : s1 = s := by
+      rcases hcase with h1 | ⟨h1, _⟩
+      · have : pc.sctp = some s1 := h1
+        rw [hs] at this; exact (Option.some.inj this).symm
+      · have : pc.sctp = none := h1
+        rw [hs] at this; cases this
+    subst this
+    unfold applyRemoteApp at h
+    rw [hs1] at h
+    cases h
+    exact ⟨_, rfl, rfl⟩
 
 /-! ## the whole loop -/
 
@@ -510,6 +561,9 @@ structure FoldResult (typ : DType) (K : List (Kind × String)) (pc pc' : Pc) (ms
   sctpApp : ∀ m ∈ ms, m.kind.isMedia = false → pc'.sctpMid = some m.mid
   sctpOld : pc'.sctpMid = pc.sctpMid ∨ ∃ m ∈ ms, m.kind.isMedia = false ∧ pc'.sctpMid = some m.mid
   sctpKeep : pc.sctp.isSome = true → pc'.sctp.isSome = true
+  /-- the owner of a mid stays on its transport during the loop (BUNDLE comes afterwards) -/
+  fwd : ∀ t ∈ pc.transceivers, ∀ x, t.mid = some x → ∃ t' ∈ pc'.transceivers, t'.mid = some x ∧ t'.transport = t.transport
+  sctpTr : ∀ s, pc.sctp = some s → ∃ s', pc'.sctp = some s' ∧ s'.transport = s.transport
 
 theorem mem_setAdd {s : List String} {m x : String} : x ∈ setAdd s m ↔ x ∈ s ∨ x = m := by
   unfold setAdd
@@ -531,7 +585,7 @@ theorem pre_fold {typ : DType} {K : List (Kind × String)} (hnd : (K.map (·.2))
   | nil =>
     intro pc i hP _ _ _
     refine ⟨pc, by simp [applyRemote], hP, PrefsSub.refl _, fun x hx _ _ => hx, fun j m hj => (by simp at hj), fun h => h, rfl,
-      fun x => (by simp), fun m hm => (by cases hm), .inl rfl, fun h => h⟩
+      fun x => (by simp), fun m hm => (by cases hm), .inl rfl, fun h => h, fun t ht x hx => ⟨t, ht, hx, rfl⟩, fun s hs => ⟨s, hs, rfl⟩⟩
   | cons m ms ih =>
     intro pc i hP hidx hacc hfit
     have hK : K[i]? = some (m.kind, m.mid) := by simpa using hidx 0 m (by simp)
@@ -541,7 +595,7 @@ theorem pre_fold {typ : DType} {K : List (Kind × String)} (hnd : (K.map (·.2))
       · exact applyRemoteSec_app_ok hk
       · exact applyRemoteSec_media_ok hk (hacc m (by simp) hk)
     obtain ⟨pc1, h1⟩ := hstep
-    obtain ⟨hP1, hpref1, hkeep1, hown1, hmedia1⟩ := pre_step hP hK hnd h1
+    obtain ⟨hP1, hpref1, hkeep1, hown1, hmedia1, hfwd1⟩ := pre_step hP hK hnd h1
     obtain ⟨hslots1, hseen1, hsctpM, hsctpA⟩ := applyRemoteSec_frame h1
     -- SCTP mid after the step
     have hsm1 : (m.kind.isMedia = true → pc1.sctp = pc.sctp) ∧
@@ -574,8 +628,11 @@ theorem pre_fold {typ : DType} {K : List (Kind × String)} (hnd : (K.map (·.2))
       rw [← hmm] at hK
       have := (keys_index_inj hnd hK h3).1
       omega
+    have hsctp1 : ∀ s, pc.sctp = some s → ∃ s', pc1.sctp = some s' ∧ s'.transport = s.transport := by
+      intro s hs
+      exact applyRemoteSec_sctp_transport h1 s hs
     refine ⟨pc', by simp only [applyRemote, h1]; exact h2, r.pre, r.prefs.trans hpref1, ?_, ?_, fun h => r.media (hmedia1 h),
-      r.slots.trans hslots1, ?_, ?_, ?_, ?_⟩
+      r.slots.trans hslots1, ?_, ?_, ?_, ?_, ?_, ?_⟩
     · intro x hx hxn hxm
       exact r.keep x (hkeep1 x hx hxn (hxm m (by simp))) hxn (fun m2 hm2 => hxm m2 (by simp [hm2]))
     · intro j mj hj hk
@@ -619,5 +676,13 @@ theorem pre_fold {typ : DType} {K : List (Kind × String)} (hnd : (K.map (·.2))
       cases hk : m.kind.isMedia
       · exact (hsm1.2 hk).2
       · rw [hsm1.1 hk]; exact hs
+    · intro t ht x hx
+      obtain ⟨t1, ht1, hm1, htr1⟩ := hfwd1 t ht x hx
+      obtain ⟨t2, ht2, hm2, htr2⟩ := r.fwd t1 ht1 x hm1
+      exact ⟨t2, ht2, hm2, htr2.trans htr1⟩
+    · intro s hs
+      obtain ⟨s1, hs1, e1⟩ := hsctp1 s hs
+      obtain ⟨s2, hs2, e2⟩ := r.sctpTr s1 hs1
+      exact ⟨s2, hs2, e2.trans e1⟩
 
 end Aiortc.Model.Negotiate
